@@ -21,7 +21,7 @@ PROPERTY = 'C14'
 
 BOUNDS = {
     'quick': 'displacement-form trajectories (T,A) in {(3,2),(4,2),(3,3)} (species Li, O, Li) on cubic5 / tric / hex558; ion charge any '
-             'integer in [-4,4], temperature any real in (0,5000], dimensions 1..3; cell scale k in {2, 3/2}, time scale s in {2, 3/2}; '
+             'integer in [-4,4], temperature any real in (0,5000], dimensions 1..3; cell scale k in {2, 3/2} (k must keep the float lattice matrix exact: 3/2 only on lattices with short binary entries), time scale s in {2, 3/2}; '
              'amplitudes: A in {1,2}, T<=5 with distances cut to arbitrary non-negative reals; Std variants over 2 parts',
     'thorough': '(T,A) up to (5,3); all pool lattices for the density/scaling jobs; amplitudes T<=7',
 }
@@ -378,13 +378,14 @@ def jobs(tier, seed):
     js = []
     if tier == 'quick':
         fm = [(3, 2, 'cubic5', False), (3, 2, 'tric', False), (4, 2, 'hex558', False), (3, 3, 'tric', True), (3, 2, 'cubic5', True)]
-        sc = [(3, 2, 'tric', '2', '3/2'), (3, 2, 'hex558', '3/2', '2')]
+        sc = [(3, 2, 'tric', '2', '3/2'), (3, 2, 'cubic5', '3/2', '2')]
         am = [(2, 1), (3, 1), (4, 1), (5, 1), (3, 2)]
         sd = [(3, 1, 'tric')]
     else:
         fm = [(T, A, lat, ident) for (T, A) in ((3, 2), (4, 2), (5, 3)) for lat in ('cubic5', 'tric', 'hex558', 'mono567b110', 'cubic5_rotz')
               for ident in (False, True)]
-        sc = [(3, 2, lat, k, s) for lat in pool.ALL_LATTICES for k, s in (('2', '3/2'), ('3/2', '2'))]
+        sc = [(3, 2, lat, k, s) for lat in pool.ALL_LATTICES for k, s in (('2', '3/2'), ('1/2', '2'))] + \
+             [(3, 2, lat, '3/2', '5/4') for lat in ('cubic5', 'ortho457', 'unit')]
         am = [(T, 1) for T in range(2, 8)] + [(3, 2), (4, 2)]
         sd = [(3, 1, 'tric'), (3, 2, 'cubic5')]
     for T, A, lat, ident in fm:
